@@ -12,6 +12,7 @@ import os
 import random
 import signal
 import subprocess
+import re
 import sys
 import time
 
@@ -386,8 +387,35 @@ def g_chains(rng, total_max=8, kind=None):
     return "\n".join(lines)
 
 
+def g_union(rng, nmax=6):
+    """Two (or three) independent modules side by side - several source SCCs, each with its own nested
+    trap spaces - optionally feeding a common downstream variable."""
+    parts = []
+    left = nmax
+    for k, pre in enumerate("pqr"):
+        if left < 2 or (k >= 2 and rng.random() < 0.6):
+            break
+        m = rng.randint(2, min(3, left))
+        r = rng.random()
+        if r < 0.5:
+            parts.append(g_lattice(rng, m, prefix_name=pre))
+        elif r < 0.8:
+            parts.append(g_expr(rng, m, depth=2, p_const=0.0, p_src=0.1, prefix_name=pre))
+        else:
+            parts.append(f"{pre}0, {pre}1\n{pre}1, {pre}0" if rng.random() < 0.5 else f"{pre}0, !{pre}1\n{pre}1, !{pre}0")
+            m = 2
+        left -= m
+    text = "\n".join(parts)
+    names = [l.split(",")[0].strip() for l in text.split("\n")]
+    if left >= 1 and rng.random() < 0.5:
+        text += f"\nz, {rand_expr(rng, rng.sample(names, min(len(names), 3)), 2)}"
+    return text
+
+
 def g_mixed(rng, nmax=6, p_core=0.4):
     r = rng.random()
+    if nmax >= 5 and r > 0.92:
+        return g_union(rng, nmax)
     if nmax >= 5 and r < 0.12:
         return g_modulated(rng, extra=nmax >= 6)
     r = rng.random()
@@ -405,6 +433,57 @@ def g_mixed(rng, nmax=6, p_core=0.4):
 
 # ----------------------------------------------------------------------------------------------
 # results, evidence, findings
+
+
+def decoy_bnet(rng, bnet: str) -> str:
+    """A network related to `bnet`: same variable names, but other positions (names rotated), other
+    signs (a variable negated wherever it is read) or other logic (and/or swapped in some functions)."""
+    rows = [l.split(",", 1) for l in bnet.split("\n") if "," in l]
+    names = [a.strip() for a, _ in rows]
+    exprs = [b.strip() for _, b in rows]
+    kinds = rng.sample(["rotate", "sign", "logic", "shift"], rng.randint(1, 2))
+    if "shift" in kinds:
+        # one more variable whose name sorts between the others: every later name moves one position up
+        k = rng.randrange(len(names))
+        names = names[:k + 1] + [names[k] + "a"] + names[k + 1:]
+        exprs = exprs[:k + 1] + [rng.choice(names)] + exprs[k + 1:]
+        rows = list(zip(names, exprs))
+    if "rotate" in kinds and len(names) >= 2:
+        k = rng.randint(1, len(names) - 1)
+        m = {names[i]: names[(i + k) % len(names)] for i in range(len(names))}
+        exprs = [re.sub(r"[A-Za-z_][A-Za-z0-9_]*", lambda t: m.get(t.group(0), t.group(0)), e) for e in exprs]
+        exprs = exprs[-k:] + exprs[:-k]
+    if "sign" in kinds:
+        v = rng.choice(names)
+        exprs = [e if names[i] == v else re.sub(r"\b" + re.escape(v) + r"\b", f"(!{v})", e) for i, e in enumerate(exprs)]
+    if "logic" in kinds:
+        for i in range(len(exprs)):
+            if rng.random() < 0.5:
+                exprs[i] = exprs[i].replace("&", "\0").replace("|", "&").replace("\0", "|")
+    out = "\n".join(f"{n}, {e}" for n, e in zip(names, exprs))
+    if out == bnet and len(names) >= 2:
+        m = {names[i]: names[(i + 1) % len(names)] for i in range(len(names))}
+        ex2 = [re.sub(r"[A-Za-z_][A-Za-z0-9_]*", lambda t: m.get(t.group(0), t.group(0)), e.strip()) for _, e in rows]
+        out = "\n".join(f"{n}, {e}" for n, e in zip(names, ex2[-1:] + ex2[:-1]))
+    return out
+
+
+def with_decoy(mod, case, seed_str):
+    """attach a decoy case (run first, result ignored) to a fraction of the generated cases"""
+    p = getattr(mod, "DECOY", 0.25)
+    if not isinstance(case, dict) or not isinstance(case.get("bnet"), str) or "_decoy" in case:
+        return case
+    rng = random.Random(seed_str)
+    if rng.random() >= p:
+        return case
+    d = dict(case)
+    try:
+        d["bnet"] = decoy_bnet(rng, case["bnet"])
+    except Exception:
+        return case
+    out = dict(case)
+    out["_decoy"] = d
+    return out
 
 
 def case_hash(obj) -> str:
